@@ -55,6 +55,7 @@ type zvsTpl struct {
 	ID    string   `json:"id"`
 	Vmax  string   `json:"vmax"`
 	Pol   string   `json:"pol"`
+	Hint  string   `json:"hint"` // acceptable-CA names the server advertises: "own" (default) | "empty" | "other"
 	Cls   string   `json:"cls"`
 	Code  string   `json:"code"`
 	Sh    []string `json:"sh"`
@@ -257,6 +258,12 @@ func zvsInstantiate(c *zvsCase, r *mrand.Rand) {
 	for m := range c.Eps {
 		e := &c.Eps[m]
 		e.Sh = zvsNorm(e.Sh)
+		if e.Hint == "" {
+			e.Hint = "own"
+			if e.ID == "plain" {
+				e.Hint = "none"
+			}
+		}
 		if have {
 			c.raw[m], _ = hex.DecodeString(c.Info.Replies[m])
 			e.Certs, e.Cm = zvsNorm(e.Certs), zvsNorm(e.Cm)
@@ -610,10 +617,24 @@ func (p *zvsPKI) serverConfig(e zvsTpl, pos int) *tls.Config {
 	switch e.Pol {
 	case "require":
 		cfg.ClientAuth = tls.RequireAndVerifyClientCert
+	case "verifyifgiven":
+		cfg.ClientAuth = tls.VerifyClientCertIfGiven
+	case "requireany":
+		cfg.ClientAuth = tls.RequireAnyClientCert
 	case "request":
 		cfg.ClientAuth = tls.RequestClientCert
 	default:
 		cfg.ClientAuth = tls.NoClientCert
+	}
+	// the server's client-CA pool: what it verifies against and what it advertises as acceptable CA names
+	switch e.Hint {
+	case "empty":
+		cfg.ClientCAs = x509.NewCertPool()
+	case "other": // e.g. after a client-CA rotation: a pool without the issuer of the RA's certificate
+		o := x509.NewCertPool()
+		o.AddCert(p.ca["caX"].cert)
+		o.AddCert(p.ca["ca2"].cert)
+		cfg.ClientCAs = o
 	}
 	return cfg
 }
@@ -645,6 +666,7 @@ type zvsLane struct {
 	req                       *pb.SSHCertificateSigningRequest
 	reply                     [][]byte
 	hits                      []*zvsHit
+	cancelMid                 context.CancelFunc
 	accepted, closed, running int
 	open                      map[*zvsConn]struct{}
 	bufl                      [zvsMaxPos + 1]*bufconn.Listener
@@ -761,6 +783,12 @@ func (s *zvsStub) PostUserSSHCertificate(ctx context.Context, in *pb.SSHCertific
 	case "rpc":
 		return nil, status.Error(codes.Code(code), "verif: scripted failure")
 	case "deadline":
+		l.mu.Lock()
+		cm := l.cancelMid
+		l.mu.Unlock()
+		if cm != nil {
+			cm() // the caller gives up while this endpoint is being tried
+		}
 		select {
 		case <-ctx.Done():
 		case <-time.After(30 * time.Second):
@@ -1142,6 +1170,41 @@ func (l *zvsLane) run(c *zvsCase, base *zvsBase, r *mrand.Rand, tryMs int) []int
 			ctx, cancel = context.WithCancel(context.Background())
 			budget, grace = 0, 6*time.Second
 		}
+		switch c.Ctx {
+		case "cancelled": // the caller had given up before Sign was entered
+			cancel()
+			ctx, cancel = context.WithCancel(context.Background())
+			cancel()
+		case "expired": // the deadline had passed before Sign was entered
+			cancel()
+			ctx, cancel = context.WithDeadline(context.Background(), time.Now().Add(-time.Second))
+		case "cancelmid": // the caller gives up while the first "deadline" endpoint is being tried
+			cancel()
+			ctx, cancel = context.WithCancel(context.Background())
+			l.mu.Lock()
+			l.cancelMid = cancel
+			l.mu.Unlock()
+		case "expiredwarm":
+			// several requests are signed under one context: this Signer serves one call, the deadline passes, Sign is entered again
+			cancel()
+			ctx, cancel = context.WithTimeout(context.Background(), 400*time.Millisecond)
+			var perr error
+			func() {
+				defer func() {
+					if p := recover(); p != nil {
+						perr = fmt.Errorf("panic: %v", p)
+					}
+				}()
+				_, _, perr = s.Sign(ctx, req)
+			}()
+			step(map[string]interface{}{"op": "priorcall", "err": perr != nil})
+			<-ctx.Done()
+			time.Sleep(20 * time.Millisecond)
+			l.quiet(5*time.Second, 150*time.Millisecond)
+			l.mu.Lock()
+			l.hits = nil // what the earlier call caused is not the subject of this case
+			l.mu.Unlock()
+		}
 		finished := make(chan struct{})
 		go func() {
 			defer close(finished)
@@ -1166,6 +1229,9 @@ func (l *zvsLane) run(c *zvsCase, base *zvsBase, r *mrand.Rand, tryMs int) []int
 			certs, comments, err = nil, nil, fmt.Errorf("verif: Sign did not return within its budget plus %v", grace)
 		}
 		cancel()
+		l.mu.Lock()
+		l.cancelMid = nil
+		l.mu.Unlock()
 		c.Info.WallMs = int(time.Since(started) / time.Millisecond)
 		if c.Ctx == "ample" && !hang && time.Since(started) > budget*6/10 {
 			// correct code needs at most a third of this budget; a run that used more than 60 % of it was slowed down by the
